@@ -467,3 +467,6 @@ mod test {
         date_time.parse(new_input(input)).unwrap();
     }
 }
+
+#[cfg(kani)]
+include!(concat!(env!("TOML_VERIF_KANI"), "/toml_edit/parser_datetime.rs"));
